@@ -199,6 +199,9 @@ type Stack struct {
 	AccMgr   accountmanager.Service
 	WalMgr   walletmanager.Service
 
+	// BeginGen, if set, is told when a generation is about to be requested (cluster commit steering).
+	BeginGen func(account string)
+
 	SignerH *signerhandler.Handler
 	ListerH *listerhandler.Handler
 	AccMgrH *accountmanagerhandler.Handler
@@ -459,4 +462,10 @@ func Ctx(client string, ip string) context.Context {
 // Creds builds service-level credentials.
 func Creds(client string, ip string) *checker.Credentials {
 	return &checker.Credentials{Client: client, IP: ip, RequestID: "verif"}
+}
+
+func (s *Stack) netBegin(account string) {
+	if s.BeginGen != nil {
+		s.BeginGen(account)
+	}
 }
